@@ -74,15 +74,15 @@ claim("C01",
       "Kernel theorems GFO.C01.*: conv2pos / _move_part / move_spiral's clip-cast / move_random / _init_grid_search / vertices / both grid decoders return index vectors in [0,size-1] for every input under exactly the stated hypotheses (noNan where a nan is cast to INT64_MIN, with witnesses); "
       "driver_evaluates_reported: the parameter set handed to the objective is dims[k][pos[k]] of the recorded position, no index wrap. Function-level correspondence on boundary vectors, replay of recorded conv2pos/_move_part calls, "
       "and the statement monitored on real runs of all 22 optimizers (positions, objective and constraint arguments, nan audit).",
-      "Whole-run theorems for the 20 optimizers modelled completely (for Bayesian / TPE / Forest the C17 statements) (GFO.Model.Local: HillClimbing, StochasticHillClimbing, SimulatedAnnealing, RepulsingHillClimbing, RandomRestartHillClimbing, RandomAnnealing, RandomSearch; GFO.Model.GridBackend: GridSearch; GFO.Model.Population: ParallelTempering, ParticleSwarm, SpiralOptimization; GFO.Model.Evolution: EvolutionStrategy, DifferentialEvolution, GeneticAlgorithm; GFO.Model.Pattern / Powell / Simplex: PatternSearch, PowellsMethod, DownhillSimplex, whose known C15 / C19 findings are theorems about the model with kernel-evaluated witness runs and are predicted on real runs - populations as round-robins over complete members on one shared tape, instances of one contract PopOK - iterate, evaluate, move_climb, conv2pos, move_random, random_iteration as code; generator outputs and constraint verdicts as an argument-checked oracle tape): GFO.LocalRuns.C01_local_positions_in_space, through searchCall, for every configuration, objective, call, prior state and tape; the complete model is run against the real optimizers on recorded tapes (positions, rows, trace, best, final tracker, tape consumed exactly). "
-      "Partial: for Direct and Lipschitz (no complete model) and for Bayesian / TPE / Forest (whose complete model carries the C17 theorems, not position theorems) the composition of kernels inside iterate is covered by correspondence/monitor, not by a theorem per optimizer; float expressions feeding the kernels are oracle inputs.",
+      "Whole-run theorems for the 21 optimizers modelled completely (for Bayesian / TPE / Forest / Lipschitz the C17 statements) (GFO.Model.Local: HillClimbing, StochasticHillClimbing, SimulatedAnnealing, RepulsingHillClimbing, RandomRestartHillClimbing, RandomAnnealing, RandomSearch; GFO.Model.GridBackend: GridSearch; GFO.Model.Population: ParallelTempering, ParticleSwarm, SpiralOptimization; GFO.Model.Evolution: EvolutionStrategy, DifferentialEvolution, GeneticAlgorithm; GFO.Model.Pattern / Powell / Simplex: PatternSearch, PowellsMethod, DownhillSimplex, whose known C15 / C19 findings are theorems about the model with kernel-evaluated witness runs and are predicted on real runs - populations as round-robins over complete members on one shared tape, instances of one contract PopOK - iterate, evaluate, move_climb, conv2pos, move_random, random_iteration as code; generator outputs and constraint verdicts as an argument-checked oracle tape): GFO.LocalRuns.C01_local_positions_in_space, through searchCall, for every configuration, objective, call, prior state and tape; the complete model is run against the real optimizers on recorded tapes (positions, rows, trace, best, final tracker, tape consumed exactly). "
+      "Partial: for Direct (no complete model) and for Bayesian / TPE / Forest / Lipschitz (whose complete model carries the C17 theorems, not position theorems) the composition of kernels inside iterate is covered by correspondence/monitor, not by a theorem per optimizer; float expressions feeding the kernels are oracle inputs.",
       "Lean 4 proof of the position kernels + driver theorem + differential correspondence + monitor on all optimizers", "DESIGN.md section 5, C01")
 claim("C02",
       "GFO.C02.initializer_feasible / addNRandom_feasible: every initial position (random, grid, vertices, warm start, fill-rest, population padding) is feasible and there are n_inits of them, for every initialize dict, space and feasibility oracle; "
       "firstFeasible_spec / guarded_feasible: the retry loops return the first candidate that passed. Function-level correspondence of the real Initializer with the model from recorded draws and verdicts; "
       "on real runs of all 22 optimizers under constraints: objective arguments, search_data, best_para feasible and every emitted position preceded by a positive constraint check.",
-      "Whole-run theorems for the 20 optimizers modelled completely (for Bayesian / TPE / Forest the C17 statements) (GFO.Model.Local: HillClimbing, StochasticHillClimbing, SimulatedAnnealing, RepulsingHillClimbing, RandomRestartHillClimbing, RandomAnnealing, RandomSearch; GFO.Model.GridBackend: GridSearch; GFO.Model.Population: ParallelTempering, ParticleSwarm, SpiralOptimization; GFO.Model.Evolution: EvolutionStrategy, DifferentialEvolution, GeneticAlgorithm; GFO.Model.Pattern / Powell / Simplex: PatternSearch, PowellsMethod, DownhillSimplex, whose known C15 / C19 findings are theorems about the model with kernel-evaluated witness runs and are predicted on real runs - populations as round-robins over complete members on one shared tape, instances of one contract PopOK - iterate, evaluate, move_climb, conv2pos, move_random, random_iteration as code; generator outputs and constraint verdicts as an argument-checked oracle tape): GFO.LocalRuns.C02_local_positions_feasible, through searchCall, for every configuration, objective, call, prior state and tape; the complete model is run against the real optimizers on recorded tapes (positions, rows, trace, best, final tracker, tape consumed exactly). "
-      "Partial: for Direct and Lipschitz (no complete model) and for Bayesian / TPE / Forest (whose complete model carries the C17 theorems, not position theorems), that iterate emits only after a positive check is established per run from the constraint log, not by a theorem per optimizer.",
+      "Whole-run theorems for the 21 optimizers modelled completely (for Bayesian / TPE / Forest / Lipschitz the C17 statements) (GFO.Model.Local: HillClimbing, StochasticHillClimbing, SimulatedAnnealing, RepulsingHillClimbing, RandomRestartHillClimbing, RandomAnnealing, RandomSearch; GFO.Model.GridBackend: GridSearch; GFO.Model.Population: ParallelTempering, ParticleSwarm, SpiralOptimization; GFO.Model.Evolution: EvolutionStrategy, DifferentialEvolution, GeneticAlgorithm; GFO.Model.Pattern / Powell / Simplex: PatternSearch, PowellsMethod, DownhillSimplex, whose known C15 / C19 findings are theorems about the model with kernel-evaluated witness runs and are predicted on real runs - populations as round-robins over complete members on one shared tape, instances of one contract PopOK - iterate, evaluate, move_climb, conv2pos, move_random, random_iteration as code; generator outputs and constraint verdicts as an argument-checked oracle tape): GFO.LocalRuns.C02_local_positions_feasible, through searchCall, for every configuration, objective, call, prior state and tape; the complete model is run against the real optimizers on recorded tapes (positions, rows, trace, best, final tracker, tape consumed exactly). "
+      "Partial: for Direct (no complete model) and for Bayesian / TPE / Forest / Lipschitz (whose complete model carries the C17 theorems, not position theorems), that iterate emits only after a positive check is established per run from the constraint log, not by a theorem per optimizer.",
       "Lean 4 proof (Initializer model) + differential correspondence + monitor on all optimizers", "DESIGN.md section 5, C02")
 claim("C10",
       "GFO.C10.warm_in_init_list (a feasible warm-start dictionary, any key order, is in init_positions_l for every initialize mix), init_list_evaluated (through the real driver model a fresh optimizer evaluates its list of initial positions in order in the first n_inits steps, for any iterate/evaluate; instantiated for the eleven completely modelled single-tracker optimizers in GFO.InitRuns.C10_*_init_list_evaluated), "
@@ -94,14 +94,14 @@ claim("C15",
       "Tracker: valid_lists_exact / scores_valid_finite - the valid lists are exactly the finite-scored evaluations for every evaluate of the model. "
       "Monitor: EXHAUSTIVE over all non-finite masks on the first k objective calls x {nan, +inf, -inf, mixture} for all 22 optimizers (k=6/4 quick, 10/8 thorough); tracker replay under non-finite objectives. "
       "Seven construction sites that need a finite score during initialisation raise (DownhillSimplex x3, Powell, PatternSearch, Lipschitz, Forest): recorded in known_findings.json, printed as KNOWN-FINDING.",
-      "Whole-run theorems for the 20 optimizers modelled completely (for Bayesian / TPE / Forest the C17 statements) (GFO.Model.Local: HillClimbing, StochasticHillClimbing, SimulatedAnnealing, RepulsingHillClimbing, RandomRestartHillClimbing, RandomAnnealing, RandomSearch; GFO.Model.GridBackend: GridSearch; GFO.Model.Population: ParallelTempering, ParticleSwarm, SpiralOptimization; GFO.Model.Evolution: EvolutionStrategy, DifferentialEvolution, GeneticAlgorithm; GFO.Model.Pattern / Powell / Simplex: PatternSearch, PowellsMethod, DownhillSimplex, whose known C15 / C19 findings are theorems about the model with kernel-evaluated witness runs and are predicted on real runs - populations as round-robins over complete members on one shared tape, instances of one contract PopOK - iterate, evaluate, move_climb, conv2pos, move_random, random_iteration as code; generator outputs and constraint verdicts as an argument-checked oracle tape): GFO.LocalRuns.C15_local_evaluate_total (no score makes evaluate / evaluate_init of these optimizers fail; whole non-finite runs replayed on the complete model), through searchCall, for every configuration, objective, call, prior state and tape; the complete model is run against the real optimizers on recorded tapes (positions, rows, trace, best, final tracker, tape consumed exactly). "
+      "Whole-run theorems for the 21 optimizers modelled completely (for Bayesian / TPE / Forest / Lipschitz the C17 statements) (GFO.Model.Local: HillClimbing, StochasticHillClimbing, SimulatedAnnealing, RepulsingHillClimbing, RandomRestartHillClimbing, RandomAnnealing, RandomSearch; GFO.Model.GridBackend: GridSearch; GFO.Model.Population: ParallelTempering, ParticleSwarm, SpiralOptimization; GFO.Model.Evolution: EvolutionStrategy, DifferentialEvolution, GeneticAlgorithm; GFO.Model.Pattern / Powell / Simplex: PatternSearch, PowellsMethod, DownhillSimplex, whose known C15 / C19 findings are theorems about the model with kernel-evaluated witness runs and are predicted on real runs - populations as round-robins over complete members on one shared tape, instances of one contract PopOK - iterate, evaluate, move_climb, conv2pos, move_random, random_iteration as code; generator outputs and constraint verdicts as an argument-checked oracle tape): GFO.LocalRuns.C15_local_evaluate_total (no score makes evaluate / evaluate_init of these optimizers fail; whole non-finite runs replayed on the complete model), through searchCall, for every configuration, objective, call, prior state and tape; the complete model is run against the real optimizers on recorded tapes (positions, rows, trace, best, final tracker, tape consumed exactly). "
       "Partial: the construction sites reading the valid lists (simplex, Powell, pattern, Lipschitz bound, forest/Bayes training) are not modelled - monitor only; sklearn's reaction to degenerate training data is an oracle.",
       "Lean 4 proof (driver + tracker) + exhaustive fault enumeration over non-finite masks", "DESIGN.md section 5, C15")
 claim("C19",
       "GFO.C19.grounded_*: for evaluate_init and every evaluate of the tracker model (plain, hill climbing, stochastic with any acceptance decision, spiral) the tracked best and current pairs are (None,-inf) or members of the log of (pos_new, score) pairs and the valid lists hold log entries; best_monotone_hc, greedy_current_monotone. "
       "Backend-level correspondence: every evaluate/evaluate_init call of every modelled tracking object (optimizer, particles, individuals, spirals, tempering systems, inner grid) of real runs is replayed on the model and all tracked pairs compared. "
       "Monitor on all 22 optimizers and all sub-optimizers after every step: tracked pairs are really evaluated pairs, best never decreases, greedy current never decreases. Known finding: PowellsMethod's inner 1-D climber.",
-      "Whole-run theorems for the 20 optimizers modelled completely (for Bayesian / TPE / Forest the C17 statements) (GFO.Model.Local: HillClimbing, StochasticHillClimbing, SimulatedAnnealing, RepulsingHillClimbing, RandomRestartHillClimbing, RandomAnnealing, RandomSearch; GFO.Model.GridBackend: GridSearch; GFO.Model.Population: ParallelTempering, ParticleSwarm, SpiralOptimization; GFO.Model.Evolution: EvolutionStrategy, DifferentialEvolution, GeneticAlgorithm; GFO.Model.Pattern / Powell / Simplex: PatternSearch, PowellsMethod, DownhillSimplex, whose known C15 / C19 findings are theorems about the model with kernel-evaluated witness runs and are predicted on real runs - populations as round-robins over complete members on one shared tape, instances of one contract PopOK - iterate, evaluate, move_climb, conv2pos, move_random, random_iteration as code; generator outputs and constraint verdicts as an argument-checked oracle tape): GFO.LocalRuns.C19_local_tracker_grounded (tracked best / current pair = (pos_l[k], score_l[k]) for some k, after any history of calls), through searchCall, for every configuration, objective, call, prior state and tape; the complete model is run against the real optimizers on recorded tapes (positions, rows, trace, best, final tracker, tape consumed exactly). "
+      "Whole-run theorems for the 21 optimizers modelled completely (for Bayesian / TPE / Forest / Lipschitz the C17 statements) (GFO.Model.Local: HillClimbing, StochasticHillClimbing, SimulatedAnnealing, RepulsingHillClimbing, RandomRestartHillClimbing, RandomAnnealing, RandomSearch; GFO.Model.GridBackend: GridSearch; GFO.Model.Population: ParallelTempering, ParticleSwarm, SpiralOptimization; GFO.Model.Evolution: EvolutionStrategy, DifferentialEvolution, GeneticAlgorithm; GFO.Model.Pattern / Powell / Simplex: PatternSearch, PowellsMethod, DownhillSimplex, whose known C15 / C19 findings are theorems about the model with kernel-evaluated witness runs and are predicted on real runs - populations as round-robins over complete members on one shared tape, instances of one contract PopOK - iterate, evaluate, move_climb, conv2pos, move_random, random_iteration as code; generator outputs and constraint verdicts as an argument-checked oracle tape): GFO.LocalRuns.C19_local_tracker_grounded (tracked best / current pair = (pos_l[k], score_l[k]) for some k, after any history of calls), through searchCall, for every configuration, objective, call, prior state and tape; the complete model is run against the real optimizers on recorded tapes (positions, rows, trace, best, final tracker, tape consumed exactly). "
       "Partial: trackers of DownhillSimplex/Powell/Pattern/Direct/SMBO-level objects are monitored, not modelled; the link log entry = evaluated pair is a theorem for the completely modelled optimizers (incl. every member of the six population optimizers) and established per run for the others.",
       "Lean 4 proof (tracker invariant) + differential correspondence of tracker operations + monitor", "DESIGN.md section 5, C19")
 claim("C07",
@@ -124,10 +124,10 @@ claim("C09",
       "Lean 4 proof (non-interference through the driver; orientation of comparison kernels) + paired sign test", "DESIGN.md section 5, C09")
 claim("C17",
       "GFO.C17.select_is_argmax: for every nan-free acquisition vector and every permutation sorting it ascending (whatever argsort returns) the selected candidate has maximal acquisition value; training_set_exact: after any sequence of steps zip(X_sample, Y_sample) = previous ++ finite-scored evaluations in order, lengths equal; "
-      "no_repeat_without_replacement; warm_filter_sound. THROUGH THE WHOLE OPTIMIZER (GFO.Model.SmboBackend = complete model of Bayesian / TPE / Forest run by the driver model): "
+      "no_repeat_without_replacement; warm_filter_sound. THROUGH THE WHOLE OPTIMIZER (GFO.Model.SmboBackend = complete model of Bayesian / TPE / Forest / Lipschitz run by the driver model): "
       "GFO.SmboRuns.C17_smbo_training_set (after any call X_sample/Y_sample = before ++ the finite-scored evaluations of the call, each with its own score), C17_smbo_proposal_argmax "
       "(a model-based proposal is a (sub)sampled candidate whose acquisition value dominates every other one, for any argsort output that is a descending arrangement), C17_smbo_no_repeat; "
       "the complete model is run against the three real optimizers on recorded tapes (it also predicts the ValueError of an exhausted candidate set and Forest's NotFittedError). "
       "Backend-level correspondence on the four model-based optimizers: X/Y after every step, selection with numpy's own permutation, warm_start_smbo filter; monitor recomputes 'acquisition of the proposal = max over the candidate set' from the vector the real code computed.",
-      "Partial: the acquisition formulas (expected improvement, density ratio, Lipschitz bound), the surrogates and argsort are oracles (argsort's output is checked to be a descending arrangement); Lipschitz and Direct have no complete model (kernel theorems, correspondence, monitors).",
+      "Partial: the acquisition formulas (expected improvement, density ratio, Lipschitz bound), the surrogates and argsort are oracles (argsort's output is checked to be a descending arrangement); Direct has no complete model (kernel theorems, correspondence, monitors).",
       "Lean 4 proof (selection + bookkeeping) + differential correspondence + monitor on the real acquisition vectors", "DESIGN.md section 5, C17")
